@@ -28,6 +28,15 @@ Theorem C17_earlier_local_in_scope :
     local_in_scope s F b n line = true.
 Proof. exact earlier_local_in_scope. Qed.
 
+(** A local the scan treats as bound on an earlier line IS bound on an earlier line: every
+    entry the collector keeps comes from a binding statement of the function (any nesting of
+    blocks), so a warning is only ever suppressed by a real earlier binding. *)
+Theorem C17_local_suppression_justified :
+  forall body n l line,
+    lookup_str n (collect_locals body) = Some l -> l < line -> bound_earlier body n line = true.
+Proof. exact local_suppression_justified. Qed.
+Print Assumptions C17_local_suppression_justified.
+
 (** An available fixture is one that pytest's rules make visible from the file (so no
     warning names a fixture invisible from it): for every index state. *)
 Theorem C17_available_implies_visible :
